@@ -9,8 +9,8 @@
    periodic chain are modelled (Model/Problems.v) and tied to /repo by exact comparison of the produced matrices and by
    combinatorial oracles on the implementation (harness/props/c10.py); no theorem about their ground states is claimed. *)
 From QV.Model Require Import Base Matrix Arith Expr Extrema Sat PCBO Logic Convert PCSO Problems.
-From QV.Proofs Require Import BaseProofs KeyProofs ArithProofs PenaltyArith PCBOProofs ProblemsProofs SetCoverProofs ChainPbc.
-From Coq Require Import Lia.
+From QV.Proofs Require Import BaseProofs KeyProofs ArithProofs PenaltyArith PCBOProofs ProblemsProofs SetCoverProofs ChainPbc GraphPart.
+From Coq Require Import Lia Lqa.
 Open Scope Q_scope.
 
 (* ---- VertexCover ---- *)
@@ -115,6 +115,23 @@ Theorem C10_setcover_valid : forall n V (xb : label -> bool),
 Proof. exact sc_valid_iff. Qed.
 Print Assumptions C10_setcover_valid.
 
+(* ---- GraphPartitioning (Lucas 2.2) ----
+   vertices 0..N-1, edges (u, v, weight); gp_S: sum of the spins; gp_cut: weight of the edges between the two sides.
+   simple: no loops, no parallel edges, ends below N; weights in [0, 1] (1 for the unweighted class). *)
+Theorem C10_gp_value : forall N edges A B Hf, gp_to_quso N edges A B = Ok Hf -> (1 <= N)%nat -> ~ A == 0 ->
+  forall z, spin_env z -> eval z (tm Hf) == A * (gp_S N z * gp_S N z) + B * gp_cut z edges.
+Proof. exact gp_value. Qed.
+Print Assumptions C10_gp_value.
+(* an even number of vertices and A > B * min(2 maxdegree, N) / 8: every ground state is balanced, has energy B * cut, and no
+   balanced partition cuts less (moving one vertex off the larger side always pays) *)
+Theorem C10_gp_ground : forall N h edges A B Hf z, gp_to_quso N edges A B = Ok Hf -> N = (2 * h)%nat -> (1 <= h)%nat ->
+  simple N edges -> weights01 edges -> 0 < B -> B * nQ (Nat.min (2 * gp_degree (strip edges)) N) / 8 < A ->
+  spin_env z -> (forall z', spin_env z' -> eval z (tm Hf) <= eval z' (tm Hf)) ->
+  gp_S N z == 0 /\ eval z (tm Hf) == B * gp_cut z edges
+  /\ forall z', spin_env z' -> gp_S N z' == 0 -> gp_cut z edges <= gp_cut z' edges.
+Proof. exact gp_ground. Qed.
+Print Assumptions C10_gp_ground.
+
 (* non-vacuity: the path 0-1-2 with A = 2, B = 1 *)
 Example C10_example : exists Qf, vc_to_qubo 3 [(0, 1); (1, 2)]%nat 2 1 = Ok Qf /\ kd Qf = KQuboM /\ (0 < length (tm Qf))%nat.
 Proof. eexists. vm_compute. repeat split. apply Nat.lt_0_succ. Qed.
@@ -128,4 +145,18 @@ Example C10_example_setcover :
 Proof.
   split; [eexists; split; [vm_compute; reflexivity| vm_compute; lia]|]. split; [eexists; split; [vm_compute; reflexivity| vm_compute; lia]|].
   intros a Ha. destruct a as [|[|a]]; [vm_compute; split; [discriminate| lia]| vm_compute; split; [discriminate| lia]| lia].
+Qed.
+
+(* non-vacuity for GraphPartitioning: the path 0-1-2-3 builds, is simple, and balanced assignments exist *)
+Example C10_example_gp :
+  (exists Hf, gp_to_quso 4 [(0%nat, 1%nat, 1); (1%nat, 2%nat, 1); (2%nat, 3%nat, 1)] 1 1 = Ok Hf /\ (0 < length (tm Hf))%nat)
+  /\ simple 4 [(0%nat, 1%nat, 1); (1%nat, 2%nat, 1); (2%nat, 3%nat, 1)] /\ weights01 [(0%nat, 1%nat, 1); (1%nat, 2%nat, 1); (2%nat, 3%nat, 1)]
+  /\ exists z, spin_env z /\ gp_S (2 * 2) z == 0.
+Proof.
+  split; [eexists; split; [vm_compute; reflexivity| vm_compute; lia]|]. split.
+  - split; [|split].
+    + intros u v w [E|[E|[E|[]]]]; injection E as <- <- _; lia.
+    + vm_compute. repeat constructor; simpl; intuition congruence.
+    + intros u v w [E|[E|[E|[]]]]; injection E as <- <- _; lia.
+  - split; [intros u v w [E|[E|[E|[]]]]; injection E as _ _ <-; split; lra| apply gp_balanced_exists].
 Qed.
